@@ -561,6 +561,19 @@ fn lattice_framing(t: &mut Tally, st: &Seeded) {
                 cases.push(vec![raw(0, &b, false)]);
             }
         }
+        // every length from 0 to 130 octets, declared exactly (each body has its own minimum
+        // length, and each parser its own idea of it)
+        for bl in 0..=130usize {
+            let mut b = base.clone();
+            b.resize(bl.max(base.len()), 0);
+            b.truncate(bl);
+            if b.len() >= 4 {
+                b[2] = (bl >> 8) as u8;
+                b[3] = bl as u8;
+            }
+            cases.push(vec![raw(0, &b, true)]);
+            cases.push(vec![raw(0, &b, false)]);
+        }
     }
     run_batch(t, st, "framing", cases);
 }
